@@ -185,6 +185,7 @@ pub fn model_of(s: &Sealed, universe: &[CoinID], pool_keys: &[PoolKey], block_tx
         seen_pool_keys: pool_keys.iter().cloned().collect(),
         stake_txs_seen: Default::default(),
         spent_recently: Default::default(),
+        prev_dosc_speed: None,
     }
 }
 
@@ -1123,7 +1124,10 @@ fn dosc_allowance(m: &RefState, tx: &Transaction, lookup: &dyn Fn(&CoinID) -> Op
         return None;
     }
     let speed = (if tip910 { 100u128 } else { 1 }) * (1u128 << difficulty) / age as u128;
-    let prev = (ctx.header_at)(m.height.checked_sub(1)?)?.dosc_speed;
+    let prev = match m.prev_dosc_speed {
+        Some(s) => s,
+        None => (ctx.header_at)(m.height.checked_sub(1)?)?.dosc_speed,
+    };
     ref_dosc_to_erg(m.height, ref_reward(speed, prev, difficulty, tip910))
 }
 
